@@ -149,6 +149,13 @@ template<class T> void vb_ptr_ops(rlbox_sandbox<SBX>& s)
   *pp = p; p = *pp; pp[1] = p; *pp = nullptr; (*pp).assign_raw_pointer(s, raw1); *pp = pp[1];
   tainted<T*, SBX> fromvol(*pp); (void)fromvol;
   auto ppd = pp.copy_and_verify_address([](uintptr_t u) { return u; }); (void)ppd;
+  // the same bulk operations applied to a pointer that itself lives in sandbox memory (tainted_volatile<T*>)
+  { auto& vp0 = *pp;
+    auto va = vp0.copy_and_verify_address([](uintptr_t u) { return u; }); (void)va;
+    auto vb = vp0.copy_and_verify_buffer_address([](uintptr_t u) { return u; }, 4); (void)vb;
+    auto vc = vp0.copy_and_verify([](std::unique_ptr<T> x) { return x ? *x : T{}; }); (void)vc;
+    auto vr = vp0.copy_and_verify_range([](std::unique_ptr<T[]> x) { return x; }, 3); (void)vr;
+    auto vu = vp0.unverified_safe_pointer_because(2, "r"); (void)vu; }
   s.free_in_sandbox(p); s.free_in_sandbox(*pp);
   auto op = p.to_opaque(); auto back = from_opaque(op); s.free_in_sandbox(op); (void)back;
   auto acc = s.UNSAFE_accept_pointer(raw1); (void)acc;
